@@ -2,6 +2,7 @@ package main
 
 import (
 	"fmt"
+	"go/constant"
 	"go/token"
 	"go/types"
 	"os"
@@ -456,6 +457,46 @@ func checkC17(p *Prog, r *Report) {
 						r.Check(ok, kp("PANIC", "P-lib:"+fname+"→"+kt+"(bytes)@"+blockTag(fn, b)), "bytes are reinterpreted as a fixed-size key type only after their length was pinned: the key's Verify/Address methods panic on any other length", p.Pos(x.Pos()),
 							"dominated by "+wit, fmt.Sprintf("%s converts %v to %s with no dominating len(...) == constant: verification with a key of the wrong length panics (ed25519: bad public key length)", fname, ft, kt))
 					}
+				// ---------------- P-lib: make([]T, n, cap) with a size an outsider chooses ----------------
+				case *ssa.MakeSlice:
+					for _, sz := range []ssa.Value{x.Len, x.Cap} {
+						if _, isC := sz.(*ssa.Const); isC {
+							continue
+						}
+						st := o.Of(sz)
+						ext := st.Contains(func(t *Term) bool {
+							if t.Op != "field" || len(t.Args) != 1 {
+								return false
+							}
+							_, _, isPF := paramField(t)
+							return isPF || t.Args[0].Op == "field" || t.Args[0].Op == "call" || t.Args[0].Op == "deref"
+						}) && !st.Contains(func(t *Term) bool { return t.IsCall("builtin:len") || t.IsCall("builtin:cap") })
+						if !ext {
+							continue
+						}
+						nLib++
+						ub := int64(-1)
+						F := fa.AtInstrX(x)
+						for _, a := range F.Atoms() {
+							t := a.Term
+							if t == nil || t.Op != "lt" || len(t.Args) != 2 {
+								continue
+							}
+							var c int64
+							if t.Args[0].Op == "const" && t.Args[1].Eq(st) && Entails(F, fNot(a)) { // !(c < n): n <= c
+								if _, err := fmt.Sscan(t.Args[0].Name, &c); err == nil {
+									ub = c
+								}
+							}
+							if t.Args[1].Op == "const" && t.Args[0].Eq(st) && Entails(F, a) { // n < c
+								if _, err := fmt.Sscan(t.Args[1].Name, &c); err == nil {
+									ub = c - 1
+								}
+							}
+						}
+						r.Check(ub >= 0, kp("PANIC", "P-lib:"+fname+"#make-size-from-request@"+blockTag(fn, b)), "a slice is never sized from a number an outsider chooses without an upper bound (make panics on a length or capacity out of range)", p.Pos(x.Pos()),
+							fmt.Sprintf("size <= %d on this path", ub), fmt.Sprintf("%s sizes a slice with %s, taken from a request or message field with no dominating upper bound: a huge value (2^63) makes make() panic", fname, clip(st.String(), 120)))
+					}
 				// ---------------- P-explicit: panic(...) ----------------
 				case *ssa.Panic:
 					nExplicit++
@@ -590,6 +631,18 @@ func checkC17(p *Prog, r *Report) {
 					}
 					// ---------------- P-lib ----------------
 					switch {
+					case name == "strings.Repeat" || name == "bytes.Repeat":
+						nLib++
+						cnt := cc.Args[1]
+						okN := nonNegativeInt(cnt, 0)
+						if !okN {
+							ct := o.Of(cnt)
+							_, okN = fa.DominatingFact(x.(ssa.Instruction), false, func(t *Term) bool {
+								return t.Op == "lt" && t.Args[0].Eq(ct) && t.Args[1].Op == "const" && t.Args[1].Name == "0"
+							})
+						}
+						r.Check(okN, kp("PANIC", "P-lib:"+fname+"→"+name+"#count≥0@"+blockTag(fn, b)), "strings.Repeat / bytes.Repeat panic on a negative count: the count is non-negative by construction or by a dominating test", site,
+							"count is non-negative", fmt.Sprintf("%s calls %s with the count %s, which can be negative (Go's %% keeps the sign of the dividend): the call panics", fname, name, clip(o.Of(cnt).String(), 120)))
 					case name == "crypto/cipher.NewCTR":
 						nLib++
 						iv := o.Of(cc.Args[1])
@@ -1460,4 +1513,37 @@ func contradictsLibraryFact(F *Formula) string {
 		return "the path requires " + clip(a.String(), 120) + ", but " + prod + " never returns an empty slice (the length prefix alone is one byte)"
 	}
 	return ""
+}
+
+// nonNegativeInt: the integer value is >= 0 by construction.
+func nonNegativeInt(v ssa.Value, depth int) bool {
+	if depth > 4 {
+		return false
+	}
+	switch x := v.(type) {
+	case *ssa.Const:
+		return x.Value != nil && constant.Sign(x.Value) >= 0
+	case *ssa.Call:
+		if bi, ok := x.Call.Value.(*ssa.Builtin); ok && (bi.Name() == "len" || bi.Name() == "cap" || bi.Name() == "copy") {
+			return true
+		}
+	case *ssa.BinOp:
+		switch x.Op {
+		case token.ADD, token.MUL, token.QUO, token.REM, token.AND, token.SHR:
+			return nonNegativeInt(x.X, depth+1) && nonNegativeInt(x.Y, depth+1)
+		}
+	case *ssa.Convert:
+		if bt, ok := x.X.Type().Underlying().(*types.Basic); ok && bt.Info()&types.IsUnsigned != 0 {
+			return true
+		}
+		return nonNegativeInt(x.X, depth+1)
+	case *ssa.Phi:
+		for _, e := range x.Edges {
+			if e != ssa.Value(x) && !nonNegativeInt(e, depth+1) {
+				return false
+			}
+		}
+		return len(x.Edges) > 0
+	}
+	return false
 }
